@@ -47,5 +47,5 @@ func Tier() int // 0 quick, 1 thorough
 func Param(name string, quick, thorough int) int
 
 // monitors
-func WatchLocked(p unsafe.Pointer, lock unsafe.Pointer)
+func WatchLocked(p unsafe.Pointer, n uintptr, lock unsafe.Pointer)
 func Unwatch()
